@@ -10,7 +10,7 @@ from harness import gen
 from harness.framework import Suite
 
 PID = "C19"
-LEAN_MODS = ["SwcVerif.Props.C19", "SwcVerif.Props.C19Gen", "SwcVerif.Props.C19Front", "SwcVerif.Props.C19Map"]
+LEAN_MODS = ["SwcVerif.Props.C19", "SwcVerif.Props.C19Gen", "SwcVerif.Props.C19Front", "SwcVerif.Props.C19Map", "SwcVerif.Refine.PopFromSwc"]
 TRANSLATE_ALGO = ["AlgoPopulation", "AlgoPopFront", "AlgoPopMap"]    # Gen/AlgoPopulation.lean, Gen/AlgoPopFront.lean are regenerated from swcgeom/core/population.py on every run
 DRIVER_FILES = ["SwcVerif/Model/AlgoRunPopulation.lean", "SwcVerif/Model/AlgoRunPopFront.lean", "SwcVerif/Model/AlgoRunPopMap.lean"]
 THEOREMS = [
@@ -26,6 +26,9 @@ THEOREMS = [
     # Gen/AlgoPopMap.lean: Population.find_swcs, LazyLoadingTrees.__iter__, Population.map
     "RefinePopMap.find_swcs_refines", "RefinePopMap.lazy_iter_refines", "RefinePopMap.pop_map_refines", "C19.generated_find_swcs",
     "C19.generated_find_swcs_order", "C19.frontState_inv", "C19.generated_map_results", "C19.generated_map_load_at_most_once",
+    # Populations.from_swc (Gen/AlgoPopFront `pops_from_swc`): constructors on fresh containers, Populations.__init__, the construction part (PARTIAL)
+    "RefineFromSwc.lazy_init_eq", "RefineFromSwc.pop_init_fresh", "RefineFromSwc.pops_init_eq", "RefineFromSwc.fs_for5_loop",
+    "RefineFromSwc.body_split_partial", "RefineFromSwc.pops_from_swc_tail_partial",
 ]
 TRUSTED = ["hand-written models Model/Population.lean of _get_idx / LazyLoadingTrees / ChainTrees / NestTrees / Population construction "
            "(tied by the c19.lazy and c19.chain correspondence: returned file and read log compared exactly for every operation script)"]
